@@ -1698,7 +1698,7 @@ class Tensor:
 
                 # Shape: [S0, S1, ... SN] -> (S0, S1, ... SN)
                 elif coord_style == "tuple":
-                    curr_shape += (shape,)
+                    curr_shape += shape if isinstance(shape, tuple) else (shape,)
                     if i == depth + levels:
                         new_shape.append(curr_shape)
 
